@@ -132,7 +132,19 @@ namespace embedded_pairing::bls12_381 {
                     return false;
                 }
             }
-            return g.is_in_correct_subgroup_assuming_on_curve();
+            if (!g.is_in_correct_subgroup_assuming_on_curve()) {
+                return false;
+            }
+
+            /*
+             * read_big_endian reduces coordinates modulo q and ignores the
+             * unused top bits of every coordinate but the first, so several
+             * byte strings parse to the same point. Only accept the one that
+             * encode() produces.
+             */
+            Encoding<Affine, compressed> canonical;
+            canonical.encode(g);
+            return memcmp(canonical.data, this->data, sizeof(this->data)) == 0;
         }
 
         return true;
